@@ -35,6 +35,8 @@ def node_pattern(nodes, nid, new_of):
             s += " clean" if p["clean"] else " resume"
         if p["kind"] == "connack" and p["sp"]:
             s += " sp"
+        if p["kind"] in ("connect", "connack") and p["sei"] == 0:
+            s += " sei0"
         if p.get("bad"):
             s += " bad"
     elif c["op"] == "fire":
